@@ -226,3 +226,25 @@ def run_config(chk, facts):
            len(iters) == 2, key=f"{an.path}|same-iter", file=an.file, line=an.lo, fn=an.path,
            detail="the statuses flipped after success must be those of the patches that were collected")
     chk.sample({"progress exits": [(bb, list(s), ret_class(an, rv)) for bb, s, rv in ex.exits]})
+
+    # ---- C19-d the preference key is not computed with wrapping arithmetic -----------------------------------------
+    chk.rule("C19-d", "T-WHO: IntersectionInfo -- the value whose ordering picks among invalidating candidates -- is computed without "
+                      "wrapping fixed-point operators: its constructors (from_subset, design_space_size and their closures) call no "
+                      "`impl Add/Sub/Neg/Mul for Fixed` (all wrap by definition) and no wrapping_* method; a size that wraps negative "
+                      "makes the smaller intersection win (F34)")
+    WRAP = re.compile(r"(font_types::fixed::Fixed as core::ops::arith::(Add|Sub|Neg|Mul|AddAssign|SubAssign)[^>]*>::|::wrapping_(add|sub|mul|neg)$)")
+    bodies = [b for b in facts.all_bodies(IFT) if "patchmap::IntersectionInfo::" in b.path
+              and any(x in b.path for x in ("::from_subset", "::design_space_size"))]
+    chk.anchor("C19-d", "IntersectionInfo::from_subset / design_space_size", bodies)
+    n_d = 0
+    for b in bodies:
+        for bb, t in b.calls():
+            n_d += 1
+            bad = WRAP.search(t.callee) is not None
+            if bad:
+                chk.ob("C19-d", f"{b.path.split('IntersectionInfo::')[-1]} line {t.line}: calls {t.callee.split('::')[-1]}", False,
+                       key=f"{b.path.split('::{closure')[0]}|wrapping|{t.callee.split('::')[-1]}", file=b.file, line=t.line, fn=b.path,
+                       detail=f"`{t.callee}` wraps: a design-space segment wider than half the Fixed range (or a sum of segments) turns "
+                              f"negative and the ordering of IntersectionInfo no longer prefers the largest intersection")
+    chk.ob("C19-d", f"{len(bodies)} functions / closures, {n_d} calls, none wraps", True)
+    chk.floor("C19-d", "calls inspected in the preference-key constructors", n_d, 4)
